@@ -51,5 +51,5 @@ Definition released (ops : list cop) (obs : list (cobs * digest)) (aux : list (N
 Definition oracle_ok (c : case) : bool :=
   let '(_, _, ops, obs, aux) := c in
   oracle_no_panic obs && causes_ok ops obs && released ops obs aux && oracle_consumers ops obs &&
-  oracle_heartbeats ops obs.
+  oracle_heartbeats ops obs && exception_quiet 0 (zip3 ops obs).
 Definition bad_oracle (cs : list case) : list N := bad_idx oracle_ok 0 cs.
